@@ -29,6 +29,12 @@ func (dp decProp) body(o decOpts, st *propStats) func(t *rapid.T) {
 		c := DecCase{Vehicle: o.vehicle, Cfg: genDCfg(t)}
 		if o.vehicle == "dec" {
 			c.Writer = genWriterScript(t, o.faults)
+		} else if o.preCap != nil {
+			c.PreCap = rapid.SampledFrom(o.preCap).Draw(t, "preCap")
+		} else if rapid.IntRange(0, 7).Draw(t, "withArray") == 0 {
+			// the caller brings an array of its own
+			cc := c.Cfg.completed()
+			c.PreCap = int64(genSize(t, "preCapSmall", minInt(3*cc.BufferSize+64, 1<<17), 1, cc.BufferSize-1, cc.BufferSize, cc.BufferSize+1, cc.WindowSize))
 		}
 		x, err := newDecExec(c)
 		if err != nil {
@@ -193,6 +199,16 @@ var propC17 = decProp{
 }
 
 func TestC17(t *testing.T) { propC17.run(t) }
+
+// TestC17HugeArray: the caller's array has 2^32 bytes and more (address space
+// only, see hugeArray), which the buffer adopts as its size: the geometry is
+// then beyond what a configuration can ask for.
+func TestC17HugeArray(t *testing.T) {
+	pp := propC17
+	pp.vehicles = []decOpts{{vehicle: "dbuf", maxOps: 30, hostile: 15, faults: true, bigSizes: 30, reset: 4, readBias: 4,
+		preCap: []int64{1 << 32, 1<<32 - 1, 1<<32 + 1, 1<<32 + 4096, 1 << 33}}}
+	pp.run(t)
+}
 
 // ---------------------------------------------------------------- C18
 
